@@ -31,11 +31,31 @@ ERR_TYPES = {'ValueError': ValueError, 'IndexError': IndexError, 'AttributeError
 
 def _outcome(fn):
   try:
-    return ('ok', fn())
+    r = fn()
+    if isinstance(r, BaseException):      # an exception object as a value: compared by type and message
+      return ('ok', ('exception-object', type(r).__name__, str(r)))
+    return ('ok', r)
   except StopIteration as e:
     return ('err', 'StopIteration', str(e))
   except Exception as e:  # pylint: disable=broad-exception-caught
     return ('err', type(e).__name__, str(e))
+
+
+def _has_tick(e):
+  if e['t'] == 'lit':
+    return False
+  if e['t'] == 'call':
+    return e['f'] == 'tick' or any(_has_tick(a) for a in e['args'])
+  return _has_tick(e['e'])
+
+
+def _cached_pure(e):
+  """memoised and eager meanings coincide only when no cached node contains tick"""
+  if e['t'] == 'lit':
+    return True
+  if e['t'] == 'call':
+    return (not e['c'] or not _has_tick(e)) and all(_cached_pure(a) for a in e['args'])
+  return _cached_pure(e['e'])
 
 
 def _spec_resp(r):
@@ -154,8 +174,17 @@ def replay_expressions(chk, exprs):
       ctx = dict(kind='remote-expr', expr=e)
       if status != 'ok':
         chk.violation('expr:hang', f'{e}: {status}', ctx)
+      elif remote != local and local[0] == 'ok' and isinstance(local[1], tuple) and local[1][:1] == ('exception-object',) and remote[0] == 'err':
+        chk.violation('expr:returned-exception-raised', f'{e}: the value of the expression is an exception object, {local[1][1:]}; '
+                      f'the client raises it ({remote!r}) where local evaluation returns it', ctx)
       elif remote != local:
         chk.violation(f'expr:differs:{local[0]}', f'{e}: remote {remote!r} local {local!r}', ctx)
+      elif _cached_pure(e):
+        # and both are what plain Python gives for the same expression
+        lazylib.reset()
+        eager = _outcome(lambda: lazylib.eager(e))
+        if (eager[0], eager[1]) != (remote[0], remote[1]) or (eager[0] == 'ok' and type(eager[1]) is not type(remote[1])):
+          chk.violation(f'expr:differs-from-eager:{eager[0]}', f'{e}: remote {remote!r}, plain Python {eager!r}', ctx)
       elif rt != lt:
         chk.violation('expr:evaluated-different-number-of-times', f'{e}: ticks remote {rt} local {lt}', ctx)
     lazy_fns.clear_cache()
@@ -415,13 +444,19 @@ def body(chk):
     total += len(plain) + len(shut)
   chk.count('single_client_behaviours', total)
   # 3. expression trees through the client
-  lconsts = dict(Depth=2 if thorough else 1, MaxSteps=1, Lits={1, 5})
+  lconsts = dict(Depth=2 if thorough else 1, MaxSteps=1, Lits={1, 5}, LitKinds={'int'}, WithKind=False)
   lg = tlc.run('remote', 'LazyEval', tlc.cfg_text(constants=lconsts, invariants=['Emit'], deadlock=False), workers=1, timeout=1800)
+  # typed literals (1, True, 1.0), the type-observing callee and a callee whose result is a bytes object
+  tconsts = dict(Depth=1, MaxSteps=1, Lits={1}, LitKinds={'int', 'bool', 'float'}, WithKind=True)
+  tg = tlc.run('remote', 'LazyEval', tlc.cfg_text(constants=tconsts, invariants=['Emit'], deadlock=False), workers=1, timeout=1800)
+  if not tg.ok:
+    chk.machinery_failure(f'LazyEval export (typed) failed: {tg.error_kind} {tg.error_name}')
   if not lg.ok:
     chk.machinery_failure(f'LazyEval export failed: {lg.error_kind} {lg.error_name}')
-  exprs = [h['expr'] for h in lg.histories]
+  exprs = [h['expr'] for h in lg.histories if h not in tg.histories]
   if len(exprs) > (6000 if thorough else 400):
     exprs = rnd.sample(exprs, 6000 if thorough else 400)
+  exprs += [h['expr'] for h in tg.histories]
   chk.count('expressions', replay_expressions(chk, exprs))
   # 4. concurrent clients: recorded executions validated against the spec
   traces, hung = [], 0
